@@ -13,7 +13,7 @@ DEC_STUBS = ['CdnsDecoder__read_map_start', 'CdnsDecoder__read_array_start', 'Cd
              'cstring__[a-z]+']
 NESTED_RD = [(r'^[A-Za-z]+__read$', '  if (g_exc) return;\n  { __typeof__(*$P0) fresh; *$P0 = fresh; }\n  dec_nested($P1);')]
 RD_GHOSTS = 'rd_depth, rd_topmap, rd_indef1, rd_indef2, rd_expect_val, rd_done1, rd_bad, rd_break_pending, rd_left1, rd_left2, rd_idx2, rd_cnt1, ' \
-            'g_kseen, g_klast, g_kkind, rd_curkey, g_elast, g_eseen, g_alen, g_aseen, g_exc'
+            'g_kseen, g_klast, g_kkind, rd_curkey, g_elast, g_eseen, g_alen, g_aseen, g_exc, g_raised'
 
 
 def fields_of(ast, rec):
@@ -141,7 +141,111 @@ def lifted_loops(ast, L, tf, lifted):
     return out
 
 
+def instance_info(lifted):
+    """[(instance cname, lambda cname, seq type, member)] for the read_array instances lifted from a reader"""
+    lam = {}
+    for lf in lifted:
+        m = re.search(r'(seq_\w+)__push_back\(&this->(\w+)', lf.body)
+        if 'lambda' in lf.cname and m:
+            lam[lf.cname] = (m.group(1), m.group(2))
+    out = []
+    for lf in lifted:
+        if 'read_array' not in lf.cname:
+            continue
+        m = re.search(r'(\w+__lambda\d+)\(cap, this\)', lf.body)
+        if m and m.group(1) in lam:
+            out.append((lf.cname, m.group(1)) + lam[m.group(1)])
+    return out
+
+
+def elem_val(seqt, lv):
+    """relation between the watched element and the value delivered for it (C conversion to the element type)"""
+    if seqt in ('seq_u8', 'seq_u16', 'seq_u32', 'seq_u64'):
+        return '%s.wv == (__typeof__(%s.wv))g_elast' % (lv, lv)
+    if seqt == 'seq_str':
+        return '%s.wv.id == g_elast' % lv
+    return None
+
+
+def instance_stubs(ast, L, tf, lifted):
+    """executable contract of each read_array instance (discharged in its own unit ra.<Struct>.<k>): reads one array value into the member"""
+    out = {}
+    for iname, lname, seqt, member in instance_info(lifted):
+        lv = 'cap->' + member
+        ev = elem_val(seqt, lv)
+        out[iname] = '''  if (g_exc) return;
+  if (nondet_bool()) { g_exc = nondet_bool() ? EXC_CdnsDecoderException : EXC_CdnsDecoderEnd; return; }
+  __CPROVER_assert(rd_depth == 1 && rd_topmap && rd_expect_val && !rd_break_pending && !rd_bad, "read_array instance called at a value position");
+  __CPROVER_assert(%(lv)s.n == 0, "read_array instance called on a cleared list");
+  { unsigned long n = nondet_ulong(); __CPROVER_assume(n < (1UL << 60));
+    __typeof__(%(lv)s.wv) fresh; %(lv)s.n = n; %(lv)s.wv = fresh;
+    if (rd_curkey == g_K) { g_klast = n; g_kkind = K_ARRAY; g_aseen = 1; g_alen = n;
+      if (g_Ei < n && g_Ei == %(lv)s.wi) { g_eseen = 1; g_elast = nondet_ulong(); %(setv)s } }
+    rd_idx2 = n;
+    rd_value_done(); }''' % {'lv': lv, 'setv': ('__CPROVER_assume(%s);' % ev) if ev else ''}
+    return out
+
+
+def instance_contract(k):
+    def gen(ast, L, tf):
+        # tf is the instance; its callback is the only remaining lifted helper
+        info = [x for x in instance_info(L.lifted + [tf]) if x[0] == tf.cname]
+        if not info:
+            raise LowerError('cannot identify the member filled by ' + tf.cname)
+        iname, lname, seqt, member = info[0]
+        lv = '$1->' + member
+        ev = elem_val(seqt, lv)
+        c = '''
+__CPROVER_requires(__CPROVER_w_ok($1, sizeof(*$1)) && g_exc == 0)
+__CPROVER_requires(rd_depth == 1 && rd_topmap && rd_expect_val && !rd_break_pending && !rd_bad && !rd_done1 && (rd_indef1 || rd_left1 > 0) && rd_cnt1 < (1UL << 60))
+__CPROVER_requires(%(lv)s.n == 0)
+__CPROVER_assigns(%(lv)s, ''' + RD_GHOSTS + ''')
+__CPROVER_ensures(g_exc == 0 || g_exc == EXC_CdnsDecoderException || g_exc == EXC_CdnsDecoderEnd)
+__CPROVER_ensures(g_exc == 0 ==> (rd_depth == 1 && rd_topmap && !rd_expect_val && !rd_break_pending && !rd_bad && !rd_done1 && rd_cnt1 == @C0 + 1 && (rd_indef1 ? rd_left1 == @L0 : rd_left1 + 1 == @L0)))
+__CPROVER_ensures(g_exc == 0 ==> (rd_curkey == @K0 && g_kseen == @S0 && %(lv)s.n == rd_idx2))
+__CPROVER_ensures((g_exc == 0 && rd_curkey == g_K) ==> (g_kkind == K_ARRAY && g_aseen && g_alen == %(lv)s.n))
+'''
+        if ev:
+            c += '__CPROVER_ensures((g_exc == 0 && rd_curkey == g_K && g_Ei < %(lv)s.n && g_Ei == %(lv)s.wi) ==> (g_eseen && %(ev)s))\n'
+        return c % {'lv': lv, 'ev': ev}
+    return gen
+
+
+def instance_loops(ast, L, tf):
+    info = [x for x in instance_info(L.lifted + [tf]) if x[0] == tf.cname]
+    iname, lname, seqt, member = info[0]
+    lv = 'cap->' + member
+    ev = elem_val(seqt, lv)
+    txt = '''
+  __CPROVER_assigns(length, %(lv)s, %(G)s)
+  __CPROVER_loop_invariant(g_exc == 0 && !rd_bad && !rd_break_pending && rd_topmap && !rd_done1)
+  __CPROVER_loop_invariant(indef ? (rd_depth == 2 && rd_indef2) : (length > 0 ? (rd_depth == 2 && !rd_indef2 && rd_left2 == length) : (rd_depth == 1 && !rd_expect_val)))
+  __CPROVER_loop_invariant(%(lv)s.n == rd_idx2 && rd_idx2 <= (1UL << 60))
+  __CPROVER_loop_invariant(rd_depth == 2 ? (rd_expect_val && rd_cnt1 == @C0 && rd_left1 == @L0) : (rd_cnt1 == @C0 + 1 && (rd_indef1 ? rd_left1 == @L0 : rd_left1 + 1 == @L0)))
+  __CPROVER_loop_invariant(rd_curkey == @K0 && g_kseen == @S0 && rd_indef1 == @I0)
+  __CPROVER_loop_invariant(rd_curkey == g_K ==> g_kkind == K_ARRAY)
+  __CPROVER_loop_invariant((rd_depth == 1 && rd_curkey == g_K) ==> (g_aseen && g_alen == rd_idx2))
+''' % {'lv': lv, 'G': RD_GHOSTS}
+    if ev:
+        txt += '  __CPROVER_loop_invariant((rd_curkey == g_K && g_Ei < rd_idx2 && g_Ei == %s.wi) ==> (g_eseen && %s))\n' % (lv, ev)
+    return {1: txt}
+
+
+GH_I = [('unsigned long', 'C0', 'rd_cnt1'), ('unsigned long', 'L0', 'rd_left1'), ('long', 'K0', 'rd_curkey'), ('unsigned long', 'S0', 'g_kseen'), ('_Bool', 'I0', 'rd_indef1')]
 UNITS = []
+
+
+def RA(rec, k, props):
+    """unit for the k-th read_array instance of rec::read"""
+    UNITS.append(Unit('ra.%s.%d' % (rec, k), (rec + '::read', None), lifted_target=r'CdnsDecoder__read_array__%s__read__%d' % (rec, k),
+                      contract=instance_contract(k), loops=instance_loops, prelude=P, extern_records=EXT, stubs=DEC_STUBS, gen_stubs=NESTED_RD,
+                      ghost=GH_I, auto_inline=[r'[A-Za-z]+__ctor__\w+', r'[A-Za-z]+__default', r'[A-Za-z]+__reset'],
+                      extra_c='struct seq_u8 g_OpCodesDefault; struct seq_u16 g_RrTypesDefault;\n',
+                      setup='  static struct %s obj; struct CdnsDecoder dec;\n  __CPROVER_assume(rd_depth == 1 && rd_topmap && rd_expect_val && !rd_break_pending && !rd_bad && !rd_done1 && (rd_indef1 || rd_left1 > 0) && rd_cnt1 < (1UL << 60));\n' % rec,
+                      args=['&dec', '&obj'], props=list(props), timeout=900,
+                      post='  if (g_exc != 0) { CANARY("decoder exception reachable"); }',
+                      note='the real CdnsDecoder::read_array body with the reader\'s callback bound to it: array of any length, definite or '
+                           'indefinite; the list receives exactly the delivered elements in order'))
 
 
 def R(rec, props=('C08', 'C09', 'C01', 'C03'), inline_reset=True, **kw):
@@ -149,21 +253,44 @@ def R(rec, props=('C08', 'C09', 'C01', 'C03'), inline_reset=True, **kw):
     inl += kw.pop('inline', [])
     UNITS.append(Unit('r.' + rec, (rec + '::read', None), contract=reader_contract(rec), loops=reader_loops(rec), prelude=P,
                       extern_records=EXT, stubs=DEC_STUBS, gen_stubs=kw.pop('gen_stubs', []) + NESTED_RD, inline=inl,
-                      setup='  struct %s obj; struct CdnsDecoder dec;\n  rd_init();\n' % rec, args=['&obj', '&dec'], props=list(props), timeout=900,
-                      lifted_loops=lifted_loops, auto_inline=[r'[A-Za-z]+__ctor__\w+', r'[A-Za-z]+__default', r'[A-Za-z]+__reset'],
+                      setup='  struct %s obj; struct CdnsDecoder dec;\n  rd_init();\n' % rec, args=['&obj', '&dec'], props=list(props), timeout=1800, weight=3 if rec in LISTY else 1,
+                      lifted_loops=None if rec in LISTY else lifted_loops, lifted_stub=instance_stubs if rec in LISTY else None, auto_inline=[r'[A-Za-z]+__ctor__\w+', r'[A-Za-z]+__default', r'[A-Za-z]+__reset'],
                       extra_c='struct seq_u8 g_OpCodesDefault; struct seq_u16 g_RrTypesDefault;\n' if rec in ('StorageParameters', 'BlockParameters', 'FilePreamble') else '',
-                      split=rec in ('CollectionParameters', 'StorageParameters', 'QueryResponse', 'QueryResponseSignature', 'FilePreamble'),
-                      tier='thorough' if rec in ('CollectionParameters', 'StorageParameters', 'FilePreamble') else 'quick',
+                      split=rec in ('QueryResponse', 'QueryResponseSignature'),
                       post='  if (g_exc != 0) { CANARY("decoder exception reachable"); }',
                       note='map with any number of entries, any keys (unknown, negative, repeated), definite or indefinite, any member order; '
                            'every decoder call may raise a format / end-of-input error', **kw))
 
 
+LISTY = {'StorageParameters': 2, 'CollectionParameters': 3, 'FilePreamble': 1}
 PRE = ('StorageHints', 'StorageParameters', 'CollectionParameters', 'BlockParameters', 'FilePreamble')
 for rec in ['StorageHints', 'ClassType', 'Question', 'RR', 'QueryResponseSignature', 'MalformedMessageData', 'ResponseProcessingData',
             'QueryResponseExtended', 'BlockPreamble', 'BlockStatistics', 'QueryResponse', 'AddressEventCount', 'MalformedMessage',
             'StorageParameters', 'CollectionParameters', 'BlockParameters', 'FilePreamble']:
     R(rec, props=('C08', 'C03') + (('C09',) if rec in PRE else ('C01',)))
+for rec, n in LISTY.items():
+    for k in range(1, n + 1):
+        RA(rec, k, ('C08', 'C09', 'C03'))
+
+# ---------------------------------------------------------------- CdnsReader::read_block (C05: a decoder error is never swallowed)
+RB_C = '''
+__CPROVER_requires(__CPROVER_w_ok($this, sizeof(*$this)) && __CPROVER_w_ok($1, 1) && g_exc == 0 && !g_raised)
+__CPROVER_requires($this->m_blocks_read < (1UL << 62))
+__CPROVER_assigns(*$1, $this->m_indef_blocks, $this->m_blocks_count, $this->m_blocks_read, ''' + RD_GHOSTS + ''')
+__CPROVER_ensures(g_exc == 0 || g_exc == EXC_CdnsDecoderException || g_exc == EXC_CdnsDecoderEnd)
+__CPROVER_ensures(g_raised ==> g_exc != 0)
+__CPROVER_ensures((g_exc == 0 && *$1) ==> ($this->m_blocks_read == @R0 && !$this->m_indef_blocks && $this->m_blocks_read == $this->m_blocks_count))
+__CPROVER_ensures((g_exc == 0 && !*$1) ==> $this->m_blocks_read == @R0 + 1)
+'''
+UNITS.append(Unit('rdr.read_block', ('CdnsReader::read_block', None), contract=RB_C, prelude=P, extern_records=EXT, stubs=DEC_STUBS,
+                  gen_stubs=[(r'^CdnsBlockRead__read$', '  dec_nested($P1);'), (r'^CdnsBlockRead__ctor__v$', '  struct CdnsBlockRead b; return b;')],
+                  ghost=[('unsigned long', 'R0', '$this->m_blocks_read')],
+                  setup='  static struct CdnsReader obj; _Bool a_eof;\n  rd_init(); g_raised = 0;\n  rd_depth = 1; rd_topmap = 0; rd_indef1 = obj.m_indef_blocks; rd_left1 = obj.m_blocks_count - obj.m_blocks_read;\n'
+                        '  __CPROVER_assume(obj.m_blocks_read < (1UL << 62) && (obj.m_indef_blocks || obj.m_blocks_read <= obj.m_blocks_count));\n',
+                  args=['&obj', '&a_eof'], props=['C05', 'C03'], timeout=600,
+                  post='  if (g_exc != 0) { CANARY("decoder exception reachable"); }',
+                  note='every exception raised by the decoder while looking for the next block or reading it propagates: a truncated file is never reported as a clean end; '
+                       'a block is returned (counter + 1) only after CdnsBlockRead::read returned normally'))
 
 TRUSTED_BASE = [
     'A13(ii) byte-layer contracts of CdnsDecoder (dec.* units) reduced to a token stream: each read call delivers one value of the kind asked for or raises',
